@@ -98,29 +98,40 @@ def StrongEdge (c : Ctx) (i t : Nat) : Prop :=
 
 /-- `Gc` pointers a client can name: held by the root or by the running callback, or read out of
     an object it can name. -/
-inductive Accessible (a : Arena) : Nat → Prop
-  | root (t) : some (Ptr.strong t) ∈ a.root → Accessible a t
-  | temp (t) : Ptr.strong t ∈ a.temps → Accessible a t
-  | edge (i t) : Accessible a i → StrongEdge a.ctx i t → Accessible a t
+inductive AccessibleC (c : Ctx) (root : List Slot) (temps : List Ptr) : Nat → Prop
+  | root (t) : some (Ptr.strong t) ∈ root → AccessibleC c root temps t
+  | temp (t) : Ptr.strong t ∈ temps → AccessibleC c root temps t
+  | edge (i t) : AccessibleC c root temps i → StrongEdge c i t → AccessibleC c root temps t
+
+abbrev Accessible (a : Arena) (i : Nat) : Prop := AccessibleC a.ctx a.root a.temps i
 
 /-- Strongly reachable from the root alone. -/
-inductive StrongReach (a : Arena) : Nat → Prop
-  | root (t) : some (Ptr.strong t) ∈ a.root → StrongReach a t
-  | edge (i t) : StrongReach a i → StrongEdge a.ctx i t → StrongReach a t
+abbrev StrongReachC (c : Ctx) (root : List Slot) (i : Nat) : Prop := AccessibleC c root [] i
 
-theorem StrongReach.accessible {a : Arena} {i : Nat} (h : StrongReach a i) : Accessible a i := by
+abbrev StrongReach (a : Arena) (i : Nat) : Prop := StrongReachC a.ctx a.root i
+
+theorem AccessibleC.mono {c : Ctx} {root : List Slot} {temps temps' : List Ptr}
+    (hsub : ∀ p, p ∈ temps → p ∈ temps') {i : Nat} (h : AccessibleC c root temps i) :
+    AccessibleC c root temps' i := by
   induction h with
   | root t h => exact .root t h
+  | temp t h => exact .temp t (hsub _ h)
   | edge i t _ e ih => exact .edge i t ih e
 
+theorem StrongReach.accessible {a : Arena} {i : Nat} (h : StrongReach a i) : Accessible a i :=
+  AccessibleC.mono (fun _ hp => by cases hp) h
+
 /-- G1: everything a client can name is allocated, undestructed and not condemned. -/
-theorem Inv.safe_of_accessible {a : Arena} (h : Inv a) {i : Nat} (hi : Accessible a i) :
-    Safe a.ctx i := by
+theorem CInvH.safe_of_accessible {c : Ctx} {root temps hole} (h : CInvH c root temps hole) {i : Nat}
+    (hi : AccessibleC c root temps i) : Safe c i := by
   induction hi with
-  | root t ht => exact h.cinv.rootOK _ ht
-  | temp t ht => exact h.cinv.tempsOK _ ht
+  | root t ht => exact h.rootOK _ ht
+  | temp t ht => exact h.tempsOK _ ht
   | edge i t _ e ih =>
     obtain ⟨o, ho, hs⟩ := e
-    exact h.cinv.closed i o ho ih _ hs
+    exact h.closed i o ho ih _ hs
+
+theorem Inv.safe_of_accessible {a : Arena} (h : Inv a) {i : Nat} (hi : Accessible a i) :
+    Safe a.ctx i := h.cinv.safe_of_accessible hi
 
 end GcArena
